@@ -269,7 +269,10 @@ class SdkRun:
         k = item["s"]
         if k == "flush":
             try:
-                self.conn.flush()
+                if item.get("block") is False:
+                    self.conn.flush(block=False)         # the documented non-blocking form (the rig executes it at once)
+                else:
+                    self.conn.flush()
                 self.obs.append(self.snapshot_flush(False))
             except (rig.ControllerFault, rig.ScriptExhausted) as ex:
                 self.obs.append(self.snapshot_flush(True))
